@@ -41,7 +41,7 @@ func profiles() map[string]Profile {
 
 	p = base
 	p.Name = "C06"
-	p.Visit, p.Set, p.Evict, p.Reopen = 30, 30, 8, 5
+	p.Visit, p.Set, p.Evict, p.Reopen, p.Chain = 30, 30, 8, 5, 1
 	m["C06"] = p
 
 	p = base
@@ -57,13 +57,13 @@ func profiles() map[string]Profile {
 
 	p = base
 	p.Name = "C13any" // aggregates and search order also under lower-priority overwrites
-	p.Shape, p.Set, p.Del, p.Visit = 10, 40, 12, 8
+	p.Shape, p.Set, p.Del, p.Visit, p.Chain = 10, 40, 12, 8, 1
 	m["C13any"] = p
 
 	p = base
 	p.Name = "C11"
 	p.MemOnly = 10
-	p.Copy, p.Snap, p.SnapClose, p.SetColl, p.RmColl, p.MaxColls, p.Set = 9, 3, 2, 6, 2, 5, 22
+	p.Copy, p.Snap, p.SnapClose, p.SetColl, p.RmColl, p.MaxColls, p.Set, p.Chain = 9, 3, 2, 6, 2, 5, 22, 1
 	m["C11"] = p
 
 	p = base
@@ -130,6 +130,11 @@ func profiles() map[string]Profile {
 	pn.Reopen, pn.Flush, pn.Visit, pn.Iter, pn.SetColl, pn.RmColl, pn.Snap, pn.SnapClose, pn.Min, pn.Max = 10, 10, 10, 4, 3, 2, 3, 2, 3, 3
 	pn.Cfg = func(r *rand.Rand) int { return cbNoKeyCmp }
 	m["C12n"] = pn
+
+	pn.Name = "C17p" // a PARTIAL load-time comparator callback (answers for names starting with 'r' only); the application installs the others after every open
+	pn.Cfg = func(r *rand.Rand) int { return cbPartialCmp }
+	pn.Snap, pn.SnapClose, pn.SnapRead, pn.Dump = 8, 3, 10, 6
+	m["C17p"] = pn
 
 	p.Name = "C19cb" // the same read-log checks under every neutral subset of the callbacks (C17 x C19)
 	p.Cfg = func(r *rand.Rand) int { return r.Intn(256) }
